@@ -46,8 +46,11 @@ class SplittingSimulation(BaseSimulation):
             code, error_model, compress=compress, verbose=verbose, rng=rng
         )
 
-        self.decoders = decoders
-        self.error_rates = np.sort(error_rates)[::-1]
+        # Sort the error rates in decreasing order, keeping each decoder
+        # with the error rate it was built for.
+        order = np.argsort(error_rates)[::-1]
+        self.decoders = [decoders[i] for i in order]
+        self.error_rates = np.asarray(error_rates)[order]
         self.n_init_runs = n_init_runs
 
         self.current_error = []
